@@ -20,6 +20,8 @@ def expand(obj):
         return [expand(v) for v in obj]
     if obj == "IDEO2":
         return IDEO
+    if obj == "BSLASH":
+        return "ends with a backslash \\"
     return obj
 
 
